@@ -27,10 +27,12 @@ for e in doc["models"]:
     if kind == "list":
         owner = Person(name="owner")
         E = {n: Company(name=n) for n in ("e1", "e2", "a", "b", "c")}
+        E["n1"], E["n1_twin"] = Company(name="same"), Company(name="same")
         field = "member_of"
     else:
         owner = Company(name="owner")
         E = {n: Person(name=n) for n in ("e1", "e2", "a", "b", "c")}
+        E["n1"], E["n1_twin"] = Person(name="same"), Person(name="same")
         field = "members"
 
     class Plain:
